@@ -88,9 +88,20 @@ def _mk(r, units, ads, T, mp, n=None, two=None, extras=False):
     return spec, gen.build_point(spec, "df")
 
 
+_WARM = [0]
+
+
 def _converted_copy(iso, pkw=None, lkw=None, mkw=None):
     """The property's oracle: a reconstructed copy permanently converted; returns (copy or None, exc)."""
     cp = gen.copy_point(iso)
+    _WARM[0] += 1
+    if _WARM[0] % 2:
+        # every other oracle copy has been queried before it is converted (its interpolators exist), as a user's would
+        try:
+            cp.loading_at(float(numpy.median(cp.pressure(branch="ads"))))
+            cp.pressure_at(float(numpy.median(cp.loading(branch="ads"))))
+        except Exception:
+            pass
     try:
         if pkw:
             cp.convert_pressure(mode_to=pkw.get("pressure_mode"), unit_to=pkw.get("pressure_unit"))
